@@ -144,6 +144,65 @@ func Verif_C10_mirror() {
 	}
 }
 
+// Verif_C10_mirror_long: longer histories over two owners with a smaller step alphabet (remove;
+// list address 0; list address 1 - bitmaps arbitrary): a co-owner leaving and coming back, an owner
+// moving between addresses while the other stays, etc. Same mirror obligation after every step.
+func Verif_C10_mirror_long() {
+	k := &c10Kernel{m: map[[4]uint32]bpfDomainRouting{}}
+	c10Install(k)
+	core := &controlPlaneCore{}
+	core.bpf.Store(&bpfObjects{})
+	core.bpf.Load().DomainRoutingMap = &ebpf.Map{}
+	steps := 4
+	if vs.Thorough() {
+		steps = 5
+	}
+	owners := []string{"a.example.1", "b.example.28|upstream@x"}
+	ghost := [2]*c10Owner{{}, {}}
+	for s := 0; s < steps; s++ {
+		tag := "step" + strconv.Itoa(s)
+		oi := vs.Choice(tag+".owner", 2)
+		op := vs.Choice(tag+".op", 3)
+		if s == 0 && !vs.Thorough() {
+			vs.Assume(oi == 0 && op != 0) // quick: by symmetry the first step is owner 0 caching an answer
+		}
+		if op == 0 {
+			err := core.BatchRemoveDomainRouting(&DnsCache{RouteOwnerKey: owners[oi]})
+			vs.Assert("removal succeeds", err == nil)
+			ghost[oi] = &c10Owner{}
+		} else {
+			o := &c10Owner{live: true, w0: vs.U32(tag + ".bitmap0")}
+			o.has[op-1] = true
+			c := &DnsCache{RouteOwnerKey: owners[oi], DomainBitmap: make([]uint32, 32)}
+			c.DomainBitmap[0] = o.w0
+			if op == 1 {
+				c.Answer = append(c.Answer, &dnsmessage.A{Hdr: dnsmessage.RR_Header{Rrtype: dnsmessage.TypeA}, A: c10Addrs[0]})
+			} else {
+				c.Answer = append(c.Answer, &dnsmessage.AAAA{Hdr: dnsmessage.RR_Header{Rrtype: dnsmessage.TypeAAAA}, AAAA: c10Addrs[1]})
+			}
+			err := core.BatchUpdateDomainRouting(c)
+			vs.Assert("update succeeds", err == nil)
+			ghost[oi] = o
+		}
+		for ai := 0; ai < 2; ai++ {
+			var w0 uint32
+			present := false
+			for _, o := range ghost {
+				if o.live && o.has[ai] && o.w0 != 0 {
+					present = true
+					w0 |= o.w0
+				}
+			}
+			v, ok := k.m[c10Key(c10Addrs[ai])]
+			vs.Assert("address present in the kernel table iff a live entry with domain rules lists it", ok == present)
+			if present {
+				vs.Assert("kernel bitmap is the union of the owners' bitmaps", v.Bitmap[0] == w0)
+			}
+		}
+		vs.Assert("no other keys", len(k.m) <= 2)
+	}
+}
+
 type c10Bitmaps struct{ w0 map[string]uint32 }
 
 func (b *c10Bitmaps) MatchDomainBitmap(domain string) []uint32 {
